@@ -80,6 +80,7 @@ def pairs(d):
 
 
 ROUTES = ("dict", "list", "xexpr", "messy")
+EVAL_ROUTES = ROUTES + ("grown",)
 
 
 def build(al, d, route):
@@ -96,6 +97,18 @@ def build(al, d, route):
         if not d:
             return x - x
         return sum(c * x ** k for k, c in sorted(d.items()))
+    if route == "grown":
+        # a polynomial that was evaluated (both schemes) when it had only its first term and was then completed term
+        # by term by item assignment: it is the polynomial of its CURRENT terms, whatever scheme evaluates it
+        items = sorted(d.items())
+        P0 = Poly(dict(items[:1]), zero=0)
+        try:
+            P0(F(2)), P0(F(2), horner=True), P0(F(2), horner=False)
+        except Exception:                                   # noqa: what is judged comes later
+            pass
+        for k, c in items[1:]:
+            P0[k] = c
+        return P0
     if route == "messy":
         # integer-valued float powers, explicit zero entries, default (float) zero
         m = {}
@@ -228,7 +241,7 @@ class Replayer(object):
         p = poly_of(case["p"])
         v = rat_of(case["v"])
         nt = ("ev", tuple(sorted(p.items())), v) if len(p) >= 2 else None
-        for route in self.routes_for(idx):
+        for route in tuple(self.routes_for(idx)) + (("grown",) if idx % 2 == 0 else ()):
             info = {"p": show(p), "v": str(v), "route": route, "pc": pc}
             if pc == "horner":
                 # registers after consuming the terms of power >= pw: the value of that part of p
